@@ -15,6 +15,49 @@ def fuzz(target, seconds, **kw):
 
 
 PROPS = {
+    "C12": {
+        "rule": "cases: two vectors over the same generated records (same expression, same grouping over another function, "
+                "independent sides, optionally restricted by a selector so that the overlap is proper; plain range aggregations or "
+                "sum/max/count/avg by(...)), or a vector and a scalar literal written on the left or on the right (0, negatives, "
+                "fractions, signed and exponent spellings), all twelve arithmetic/comparison operators and and/or/unless, instant "
+                "and range queries of up to 20 steps; oracle: reference model per step (label-set join, op(left,right) with the "
+                "literal on its written side, x/0 and x%0 = NaN, comparison = 1/0, set operators by label set with left values); "
+                "non-trivial = both sides non-empty with a proper non-empty overlap at some step, or a non-commutative operator "
+                "with the literal on the left; distinct by case hash",
+        "assumptions": ["the bool modifier and on/ignoring/group_* are not generated (outside the statement)"],
+        "quick": [rapid("TestC12", 1500)],
+        "thorough": [rapid("TestC12", 6000, shards=16, timeout=2400)],
+    },
+    "C13": {
+        "rule": "cases: chains of 2-5 vector(v) operands (operands may be parenthesised sub-chains, depth <=2) joined by any of the "
+                "15 binary operators, evaluated as instant queries; oracle: the harness parses the chain by precedence climbing "
+                "with the conventional table (^ right-assoc and tightest, * / %, + -, comparisons, and/unless, or; equal "
+                "precedence left to right) and evaluates it over optional-scalar values, and the same reading written with "
+                "explicit parentheses must evaluate to the same result (evaluations counts both engine runs); a second "
+                "'defect model' (every level right-associative) classifies the known finding: a chain whose two trees differ and "
+                "whose result equals the defect model's is the listed finding, any other wrong value is a violation; 3 of 4 "
+                "chains are generated outside the finding's domain; non-trivial = >=3 operands over >=2 precedence levels, or a "
+                "^ chain, or parentheses; distinct by case hash",
+        "assumptions": ["operands are vector(v) with non-negative v (the grammar has no signed argument there); literal-literal operations are unsupported by the engine and not generated"],
+        "quick": [rapid("TestC13", 3000)],
+        "thorough": [rapid("TestC13", 20000, shards=16, timeout=2400)],
+    },
+    "C11": {
+        "rule": "cases: 2-8 series templates with varied values (counts, byte sums, unwrapped sums incl. negatives and fractions), "
+                "a range aggregation wrapped in 0-2 inner simple aggregations and one top-level operator out of all eleven, "
+                "by/without lists incl. empty and non-existent labels or no clause, k in {1,2,3,5,100}, range and instant "
+                "queries; oracle: reference model for sum/avg/min/max/count/stddev/stdvar (one series per retained label "
+                "combination; no clause = one group with the empty label set; nested clauses compose); validity predicate for "
+                "topk/bottomk (output series are input series with their values, per group min(k,n) of them, kept values are "
+                "the k extremes) and sort/sort_desc (permutation, monotone, instant only); non-trivial = >=2 groups with >=2 "
+                "members each at some step, or k below a group's size, or nesting depth >=2; distinct by case hash",
+        "assumptions": [
+            "topk/bottomk/sort only appear as the outermost operator (with ties several answers are valid)",
+            "no NaN inputs to aggregations; population variance; float tolerance 1e-9 relative",
+        ],
+        "quick": [rapid("TestC11", 1200)],
+        "thorough": [rapid("TestC11", 5000, shards=16, timeout=2400)],
+    },
     "C09": {
         "rule": "cases: up to 40 records on a 250ms lattice built from 1-4 series templates (ties, points exactly on window "
                 "edges), one range aggregation out of all 13 implemented functions (count/rate/bytes/bytes_rate and sum/avg/min/"
